@@ -112,6 +112,13 @@ def main():
         meta['needs'] = open(f'{dst}/notes.txt').read()[:1500] \
             if os.path.exists(f'{dst}/notes.txt') else ''
         meta['ran'] = [f'./check {c} --tier quick' for c in checks]
+        if os.path.exists(f'{dst}/meta.json'):
+            try:
+                h = json.load(open(f'{dst}/meta.json')).get('history')
+                if h:
+                    meta['history'] = h
+            except Exception:
+                pass
         json.dump(meta, open(f'{dst}/meta.json', 'w'), indent=1)
         det = {c: (v['rc'], len(v['violation_lines']))
                for c, v in meta['checks'].items()}
